@@ -15,9 +15,16 @@ package main
 import (
 	"bytes"
 	"context"
+	"crypto/ecdsa"
+	"crypto/elliptic"
+	crand "crypto/rand"
+	"crypto/tls"
+	"crypto/x509"
+	"crypto/x509/pkix"
 	"errors"
 	"fmt"
 	"io"
+	"math/big"
 	"math/rand"
 	"net"
 	"os"
@@ -69,6 +76,9 @@ func ok(name string, err error) {
 		okCnt[name]++
 	} else {
 		okCnt[name+"!err"]++
+		if os.Getenv("C10_DEBUG") != "" {
+			fmt.Printf("err %s: %v\n", name, err)
+		}
 	}
 	okMu.Unlock()
 }
@@ -168,6 +178,8 @@ type broker struct {
 	committed  map[int32]int64
 	group      *groupCoord // non-nil: multi-member coordinator
 	extraRecs  int         // records per fetch response beyond 4
+	nodes      []int32     // current broker ids of the cluster layout (nil: the single broker 1); guarded by mu
+	tlsServer  *tls.Config // non-nil: the broker end of every connection speaks TLS
 }
 
 // groupCoord is a small multi-member group coordinator (scaffolding): a JoinGroup or LeaveGroup starts a
@@ -318,8 +330,63 @@ func newBroker(topic string, parts, preload int) *broker {
 func (b *broker) dial() net.Conn {
 	cli, srv := net.Pipe()
 	atomic.AddInt64(&b.conns, 1)
-	go b.serve(srv)
+	if b.tlsServer != nil {
+		go b.serve(tls.Server(srv, b.tlsServer))
+	} else {
+		go b.serve(srv)
+	}
 	return cli
+}
+
+// layout returns the brokers and the leader of each partition of the current cluster layout
+func (b *broker) layout() ([]meta.ResponseBroker, func(p int) int32) {
+	b.mu.Lock()
+	nodes := append([]int32(nil), b.nodes...)
+	b.mu.Unlock()
+	if len(nodes) == 0 {
+		return []meta.ResponseBroker{{NodeID: 1, Host: "fake", Port: 9092}}, func(int) int32 { return 1 }
+	}
+	var bs []meta.ResponseBroker
+	for _, id := range nodes {
+		bs = append(bs, meta.ResponseBroker{NodeID: id, Host: "fake" + strconv.Itoa(int(id)), Port: 9092})
+	}
+	return bs, func(p int) int32 { return nodes[p%len(nodes)] }
+}
+
+func (b *broker) setNodes(ids ...int32) {
+	b.mu.Lock()
+	b.nodes = append([]int32(nil), ids...)
+	b.mu.Unlock()
+}
+
+// in-process PKI: one CA, one server certificate valid for the fake host names
+var (
+	pkiOnce   sync.Once
+	pkiServer *tls.Config
+	pkiRoots  *x509.CertPool
+)
+
+func pki() (*tls.Config, *x509.CertPool) {
+	pkiOnce.Do(func() {
+		caKey, _ := ecdsa.GenerateKey(elliptic.P256(), crand.Reader)
+		caT := &x509.Certificate{SerialNumber: big.NewInt(1), Subject: pkix.Name{CommonName: "c10 fake CA"}, NotBefore: time.Now().Add(-time.Hour),
+			NotAfter: time.Now().Add(24 * time.Hour), IsCA: true, KeyUsage: x509.KeyUsageCertSign, BasicConstraintsValid: true}
+		caDER, _ := x509.CreateCertificate(crand.Reader, caT, caT, &caKey.PublicKey, caKey)
+		ca, _ := x509.ParseCertificate(caDER)
+		key, _ := ecdsa.GenerateKey(elliptic.P256(), crand.Reader)
+		names := []string{"fake"}
+		for i := 1; i <= 9; i++ {
+			names = append(names, "fake"+strconv.Itoa(i))
+		}
+		t := &x509.Certificate{SerialNumber: big.NewInt(2), Subject: pkix.Name{CommonName: "fake"}, DNSNames: names, NotBefore: time.Now().Add(-time.Hour),
+			NotAfter: time.Now().Add(24 * time.Hour), KeyUsage: x509.KeyUsageDigitalSignature, ExtKeyUsage: []x509.ExtKeyUsage{x509.ExtKeyUsageServerAuth}}
+		der, _ := x509.CreateCertificate(crand.Reader, t, ca, &key.PublicKey, caKey)
+		// TLS 1.2: strictly alternating handshake — net.Pipe is unbuffered and TLS 1.3 session tickets would deadlock it
+		pkiServer = &tls.Config{Certificates: []tls.Certificate{{Certificate: [][]byte{der}, PrivateKey: key}}, MaxVersion: tls.VersionTLS12}
+		pkiRoots = x509.NewCertPool()
+		pkiRoots.AddCert(ca)
+	})
+	return pkiServer, pkiRoots
 }
 
 func (b *broker) serve(c net.Conn) {
@@ -347,7 +414,8 @@ func (b *broker) serve(c net.Conn) {
 				{ApiKey: int16(protocol.SyncGroup), MinVersion: 0, MaxVersion: 0},
 			}}
 		case *findcoordinator.Request:
-			resp = &findcoordinator.Response{NodeID: 1, Host: "fake", Port: 9092}
+			brokers, _ := b.layout()
+			resp = &findcoordinator.Response{NodeID: brokers[0].NodeID, Host: brokers[0].Host, Port: brokers[0].Port}
 		case *joingroup.Request:
 			if b.group != nil {
 				resp = b.group.join(r)
@@ -423,11 +491,13 @@ func (b *broker) serve(c net.Conn) {
 			}
 			resp = out
 		case *meta.Request:
+			brokers, leader := b.layout()
 			var ps []meta.ResponsePartition
 			for p := 0; p < b.parts; p++ {
-				ps = append(ps, meta.ResponsePartition{PartitionIndex: int32(p), LeaderID: 1, ReplicaNodes: []int32{1}, IsrNodes: []int32{1}})
+				l := leader(p)
+				ps = append(ps, meta.ResponsePartition{PartitionIndex: int32(p), LeaderID: l, ReplicaNodes: []int32{l}, IsrNodes: []int32{l}})
 			}
-			resp = &meta.Response{Brokers: []meta.ResponseBroker{{NodeID: 1, Host: "fake", Port: 9092}}, ControllerID: 1,
+			resp = &meta.Response{Brokers: brokers, ControllerID: brokers[0].NodeID,
 				Topics: []meta.ResponseTopic{{Name: b.topic, Partitions: ps}}}
 		case *listoffsets.Request:
 			out := &listoffsets.Response{}
@@ -1160,32 +1230,100 @@ func scenClientAPIs(rng *rand.Rand, rounds int) {
 
 // Transport / Client against the fake broker
 func scenTransport(rng *rand.Rand, rounds int) {
+	transportScenario(rng, rounds, "transport", false, false)
+}
+
+// the cluster layout (broker ids, partition leaders) changes between metadata refreshes while broker-routed
+// requests are in flight
+func scenTransportChurn(rng *rand.Rand, rounds int) {
+	transportScenario(rng, rounds, "transportchurn", false, true)
+}
+
+// the same through TLS: one caller-owned *tls.Config without ServerName shared by the Transport (two bootstrap
+// addresses = two pools) and by a Dialer
+func scenTransportTLS(rng *rand.Rand, rounds int) {
+	transportScenario(rng, rounds, "transporttls", true, true)
+}
+
+func transportScenario(rng *rand.Rand, rounds int, scen string, useTLS, churn bool) {
 	for _, m := range []string{"Metadata", "Produce", "Fetch", "ListOffsets"} {
 		also("Client."+m, "Transport.RoundTrip")
 	}
+	also("Dialer.DialLeader", "Dialer.DialPartition", "Dialer.LookupPartitions")
+	also("Dialer.LookupLeader", "Dialer.LookupPartition", "Dialer.LookupPartitions")
+	also("Dialer.Dial", "Dialer.DialContext")
 	for i := 0; i < rounds; i++ {
-		b := newBroker("t", 2, 4)
-		tr := &kafka.Transport{Dial: func(ctx context.Context, network, address string) (net.Conn, error) { return b.dial(), nil },
-			MetadataTTL: time.Duration(5+rng.Intn(20)) * time.Millisecond, IdleTimeout: time.Duration(5+rng.Intn(20)) * time.Millisecond, ClientID: "c10"}
-		cl := &kafka.Client{Addr: kafka.TCP("fake:9092"), Transport: tr, Timeout: 2 * time.Second}
+		b := newBroker("t", 4, 4)
+		var clientTLS *tls.Config
+		if useTLS {
+			srv, roots := pki()
+			b.tlsServer = srv
+			clientTLS = &tls.Config{RootCAs: roots} // no ServerName: the library has to derive it per connection
+		}
+		if churn {
+			b.setNodes(1, 2, 3)
+		}
+		ttl := time.Duration(5+rng.Intn(20)) * time.Millisecond
+		if churn {
+			ttl = time.Duration(2+rng.Intn(4)) * time.Millisecond
+		}
+		dial := func(ctx context.Context, network, address string) (net.Conn, error) { return b.dial(), nil }
+		tr := &kafka.Transport{Dial: dial, TLS: clientTLS, MetadataTTL: ttl, IdleTimeout: time.Duration(5+rng.Intn(20)) * time.Millisecond, ClientID: "c10"}
+		addr1, addr2 := "fake:9092", "fake:9092"
+		if churn {
+			addr1, addr2 = "fake1:9092", "fake2:9092"
+		}
+		cl := &kafka.Client{Addr: kafka.TCP(addr1), Transport: tr, Timeout: 2 * time.Second}
+		cl2 := &kafka.Client{Addr: kafka.TCP(addr2), Transport: tr, Timeout: 2 * time.Second}
+		d := &kafka.Dialer{DialFunc: dial, TLS: clientTLS, Timeout: 2 * time.Second, ClientID: "c10"}
 		ctx := context.Background()
-		part := rng.Intn(2)
+		part := rng.Intn(4)
 		idleDelay := time.Duration(rng.Intn(3)) * time.Millisecond
+		reps := 1
+		if churn {
+			reps = 5
+		}
+		var layouts [][]int32
+		for k := 0; k < 8; k++ {
+			perm := rng.Perm(5)
+			n := 1 + rng.Intn(4)
+			var ids []int32
+			for _, p := range perm[:n] {
+				ids = append(ids, int32(p+1))
+			}
+			layouts = append(layouts, ids)
+		}
+		rep := func(f func()) func() {
+			return func() {
+				for k := 0; k < reps; k++ {
+					f()
+					if churn {
+						time.Sleep(time.Millisecond)
+					}
+				}
+			}
+		}
+		pick := func(k int) *kafka.Client {
+			if k%2 == 0 {
+				return cl
+			}
+			return cl2
+		}
 		ops := []op{
-			{"Client.Metadata", func() {
+			{"Client.Metadata", rep(func() {
 				_, err := cl.Metadata(ctx, &kafka.MetadataRequest{Topics: []string{"t"}})
 				ok("Client.Metadata", err)
-			}},
-			{"Client.Produce", func() {
-				res, err := cl.Produce(ctx, &kafka.ProduceRequest{Topic: "t", Partition: part, RequiredAcks: kafka.RequireOne,
+			})},
+			{"Client.Produce", rep(func() {
+				res, err := pick(part).Produce(ctx, &kafka.ProduceRequest{Topic: "t", Partition: part, RequiredAcks: kafka.RequireOne,
 					Records: kafka.NewRecordReader(kafka.Record{Value: kafka.NewBytes([]byte("p"))})})
 				if err == nil {
 					err = res.Error
 				}
 				ok("Client.Produce", err)
-			}},
-			{"Client.Fetch", func() {
-				res, err := cl.Fetch(ctx, &kafka.FetchRequest{Topic: "t", Partition: 0, Offset: 0, MinBytes: 1, MaxBytes: 1 << 16, MaxWait: 10 * time.Millisecond})
+			})},
+			{"Client.Fetch", rep(func() {
+				res, err := cl2.Fetch(ctx, &kafka.FetchRequest{Topic: "t", Partition: 0, Offset: 0, MinBytes: 1, MaxBytes: 1 << 16, MaxWait: 10 * time.Millisecond})
 				n := 0
 				if err == nil && res.Records != nil {
 					for {
@@ -1199,28 +1337,66 @@ func scenTransport(rng *rand.Rand, rounds int) {
 					err = errors.New("no records")
 				}
 				ok("Client.Fetch", err)
-			}},
-			{"Client.ListOffsets", func() {
-				_, err := cl.ListOffsets(ctx, &kafka.ListOffsetsRequest{Topics: map[string][]kafka.OffsetRequest{"t": {kafka.FirstOffsetOf(0), kafka.LastOffsetOf(1)}}})
+			})},
+			{"Client.ListOffsets", rep(func() {
+				_, err := cl.ListOffsets(ctx, &kafka.ListOffsetsRequest{Topics: map[string][]kafka.OffsetRequest{"t": {kafka.FirstOffsetOf(0), kafka.LastOffsetOf(1), kafka.LastOffsetOf(2), kafka.FirstOffsetOf(3)}}})
 				ok("Client.ListOffsets", err)
-			}},
+			})},
 			{"Transport.CloseIdleConnections", func() { time.Sleep(idleDelay); tr.CloseIdleConnections() }},
-			{"Writer.WriteMessages", func() {
-				w := &kafka.Writer{Addr: kafka.TCP("fake:9092"), Topic: "t", Transport: tr, BatchTimeout: time.Millisecond, RequiredAcks: kafka.RequireOne}
+			{"Writer.WriteMessages", rep(func() {
+				w := &kafka.Writer{Addr: kafka.TCP(addr2), Topic: "t", Transport: tr, BatchTimeout: time.Millisecond, RequiredAcks: kafka.RequireOne, MaxAttempts: 2}
 				c2, cancel := context.WithTimeout(ctx, 2*time.Second)
-				ok("Writer.WriteMessages/transport", w.WriteMessages(c2, kafka.Message{Value: []byte("tw")}))
+				ok("Writer.WriteMessages/transport", w.WriteMessages(c2, kafka.Message{Value: []byte("tw")}, kafka.Message{Key: []byte("k"), Value: []byte("tx")}))
 				cancel()
 				w.Close()
+			})},
+			{"Dialer.DialLeader", func() {
+				c2, cancel := context.WithTimeout(ctx, 2*time.Second)
+				defer cancel()
+				conn, err := d.DialLeader(c2, "tcp", addr1, "t", part)
+				ok("Dialer.DialLeader", err)
+				if err == nil {
+					conn.SetDeadline(time.Now().Add(2 * time.Second))
+					_, _, err = conn.ReadOffsets()
+					ok("Dialer.DialLeader/ReadOffsets", err)
+					conn.Close()
+				}
+			}},
+			{"Dialer.LookupLeader", func() {
+				c2, cancel := context.WithTimeout(ctx, 2*time.Second)
+				defer cancel()
+				_, err := d.LookupLeader(c2, "tcp", addr2, "t", part)
+				ok("Dialer.LookupLeader", err)
+			}},
+			{"Dialer.Dial", func() {
+				conn, err := d.Dial("tcp", addr1)
+				ok("Dialer.Dial", err)
+				if err == nil {
+					conn.SetDeadline(time.Now().Add(2 * time.Second))
+					_, err = conn.ApiVersions()
+					ok("Dialer.Dial/ApiVersions", err)
+					conn.Close()
+				}
 			}},
 		}
-		runRound(rng, "transport", i, ops, 6, 10)
+		if churn {
+			ops = append(ops, op{"cluster.churn", func() {
+				for _, ids := range layouts {
+					b.setNodes(ids...)
+					time.Sleep(ttl + time.Millisecond)
+				}
+			}})
+			runRound(rng, scen, i, ops, 9, 12, "cluster.churn", "Client.Produce", "Client.ListOffsets", "Client.Fetch")
+		} else {
+			runRound(rng, scen, i, ops, 6, 10)
+		}
 		tr.CloseIdleConnections()
 	}
 }
 
 var scenarios = map[string]func(*rand.Rand, int){
 	"balancers": scenBalancers, "writer": scenWriter, "writergrow": scenWriterGrow, "codecfail": scenCodecFail, "codecs": scenCodecs, "readerfront": scenReaderFront,
-	"reader": scenReader, "readergroup": scenReaderGroup, "readerrebalance": scenReaderRebalance, "conn": scenConn, "clientapis": scenClientAPIs, "transport": scenTransport,
+	"reader": scenReader, "readergroup": scenReaderGroup, "readerrebalance": scenReaderRebalance, "conn": scenConn, "clientapis": scenClientAPIs, "transport": scenTransport, "transportchurn": scenTransportChurn, "transporttls": scenTransportTLS,
 }
 
 func main() {
